@@ -614,7 +614,7 @@ SCOPES = ['', 'zsa', 'zsa/zsb']
 LINK_SCOPES = ['', '', 'zm']
 MUTATIONS = ['args', 'field', 'slot', 'dict', 'strstate']
 _plain_link = st.builds(lambda k, s: {'kind': k, 'scope': s},
-                        st.sampled_from(['call', 'call', 'call', 'ref', 'ref', 'singleton', 'macro']),
+                        st.sampled_from(['call', 'call', 'call', 'ref', 'ref', 'singleton', 'singleton', 'macro', 'macro']),
                         st.sampled_from(LINK_SCOPES))
 # 'catch': a call link whose body catches what comes from below, changes public state of the
 # exception object and re-raises it (bare `raise` or `raise exc`)
